@@ -52,7 +52,12 @@ func authentic(w *warm, base hist.TxSpec, mutant []byte) bool {
 		}
 		ja, _ := json.Marshal(pa)
 		jb, _ := json.Marshal(pb)
-		return olvmAuthentic(w, st) && bytes.Equal(ja, jb)
+		// (the EVM-style signature covers the gas limit and the price value; the price currency is part of
+		// the fee all the same)
+		fa, _ := json.Marshal(orig.Fee)
+		fb, _ := json.Marshal(st.Fee)
+		// (the key declared next to the signature plays no part: the sender is recovered from the signature)
+		return olvmAuthentic(w, st) && bytes.Equal(ja, jb) && bytes.Equal(fa, fb)
 	}
 	rb := st.RawTx.RawBytes()
 	if len(st.Signatures) != len(base.Signers) {
@@ -318,6 +323,43 @@ func mutants(w *warm, base hist.TxSpec, rng *rand.Rand) []mutant {
 				return true
 			})
 		}
+		// signed by somebody else's key, the payload still naming the victim as sender
+		for _, declare := range []bool{true, false} {
+			declare := declare
+			name := "olvm-signed-by-attacker-victim-key-declared"
+			if declare {
+				name = "olvm-signed-by-attacker-own-key-declared"
+			}
+			add(name, func(st *action.SignedTx) bool {
+				p := &olvmact.Transaction{}
+				if json.Unmarshal(st.Data, p) != nil || len(st.Signatures) != 1 {
+					return false
+				}
+				att := w.w.EthUsers[1%len(w.w.EthUsers)]
+				if att.Addr.String() == keys.Address(p.From).String() {
+					att = w.w.EthUsers[0]
+				}
+				var to *ethcmn.Address
+				if p.To != nil {
+					a := ethcmn.BytesToAddress(p.To.Bytes())
+					to = &a
+				}
+				ethTx := ethtypes.NewTx(&ethtypes.LegacyTx{Nonce: p.Nonce, To: to, Value: p.Amount.Value.BigInt(), Gas: uint64(st.Fee.Gas), GasPrice: st.Fee.Price.Value.BigInt(), Data: p.Data})
+				k, err := ethcrypto.ToECDSA(w.w.EthKeys[att.Addr.String()])
+				if err != nil {
+					return false
+				}
+				sig, err := ethcrypto.Sign(ethtypes.NewEIP155Signer(gen.ChainIDOf(w.w)).Hash(ethTx).Bytes(), k)
+				if err != nil {
+					return false
+				}
+				st.Signatures[0].Signed = sig
+				if declare {
+					st.Signatures[0].Signer = att.Pub
+				}
+				return true
+			})
+		}
 		olvmPayload("olvm-payload-type", func(p *olvmact.Transaction) { p.TxType = 1 })
 		olvmPayload("olvm-payload-access-list-added", func(p *olvmact.Transaction) {
 			p.AccessList = &ethtypes.AccessList{{Address: ethcmn.Address{1}, StorageKeys: []ethcmn.Hash{{2}}}}
@@ -469,6 +511,12 @@ func checkC04(tier string) int {
 			r.Case(id, false)
 			return
 		}
+		// the node has checked the genuine transaction before (half of the mutants): a node that remembers
+		// anything from that validation must not let it vouch for the mutant
+		if i%2 == 0 {
+			probePrime.Store(string(j.m.bytes), j.base.Bytes)
+			r.Count("mutants_after_the_genuine_transaction_was_checked", 1)
+		}
 		o := j.wm.runProbe(j.m.bytes, j.base, true, true, 0, false)
 		if o.Err != nil {
 			r.Diag(id + ": " + o.Err.Error())
@@ -481,8 +529,14 @@ func checkC04(tier string) int {
 		kmu.Lock()
 		kinds[j.base.Kind] = true
 		kmu.Unlock()
+		if o.Checked && o.CheckCode == 0 && !o.Panicked && o.DiedAt != "CheckTx" {
+			// (what happens to the node afterwards — it may die delivering it — is C18's matter)
+			r.Violate(verdict.Violation{Signature: "C04/check-accepted/" + j.base.Kind + "/" + j.m.name, What: fmt.Sprintf("%s mutant (%s) is no longer authentic but CheckTx answered code 0", j.base.Kind, j.m.name), Witness: map[string]interface{}{"warm_seed": j.wm.seed, "warm_height": j.wm.h, "kind": j.base.Kind, "mutation": j.m.name, "base": string(j.base.Bytes), "mutant": string(j.m.bytes), "node_died_later_at": o.DiedAt}})
+			return
+		}
 		if o.Died || o.Panicked {
-			r.Diag(fmt.Sprintf("%s: node died/panicked at %s (decided by C18)", id, o.DiedAt))
+			// "rejected without effect" is not what happened if delivering the mutant took the node down
+			r.Violate(verdict.Violation{Signature: "C04/node-died/" + j.base.Kind + "/" + j.m.name, What: fmt.Sprintf("%s mutant (%s) is no longer authentic; handling it took the node down at %s: %s", j.base.Kind, j.m.name, o.DiedAt, crashLine(o.LogTail)), Witness: map[string]interface{}{"warm_seed": j.wm.seed, "warm_height": j.wm.h, "kind": j.base.Kind, "mutation": j.m.name, "mutant": string(j.m.bytes), "log": cut(o.LogTail, 1500)}})
 			return
 		}
 		if os.Getenv("DEBUG_C04") != "" && strings.Contains(j.m.name, os.Getenv("DEBUG_C04")) {
